@@ -179,8 +179,10 @@ class Report:
             "wall_s": round(wall, 2),
             "violations": len(self.violations),
         }
-        os.makedirs(os.path.join(VERIF, "evidence"), exist_ok=True)
-        with open(os.path.join(VERIF, "evidence", self.prop + ".json"), "w") as f:
+        # runs against another checkout (seeded-change trials) must not overwrite the evidence of /repo
+        evdir = os.path.join(VERIF, "evidence") if os.path.abspath(REPO) == "/repo" else os.path.join(VERIF, "scratch", "evidence")
+        os.makedirs(evdir, exist_ok=True)
+        with open(os.path.join(evdir, self.prop + ".json"), "w") as f:
             json.dump(ev, f, indent=1, default=str)
         print("%s %s: obligations=%d discharged=%d inconclusive=%d violations=%d known=%d harness_errors=%d wall=%.1fs" % (
             self.prop, self.tier, self.obligations, self.discharged, len(self.inconclusive),
